@@ -499,6 +499,34 @@ theorem sumf_exact_small_ints_partial (c : Ctx) (as : List Arg) (x : F64) (xs : 
           have : ((List.foldl (· + ·) n (m :: r) : Int) : Rat) = ((0 : Int) : Rat) := by simpa using h0
           exact Rat.intCast_inj.mp this)
 
+/-- The same for arguments that are *integer spellings* (whatever `strconv.Atoi` accepts, constants
+    or match groups), each of magnitude ≤ 2^53, with partial sums of magnitude ≤ 2^53: `{sumf …}`
+    prints `FormatFloat` of the float whose value is exactly the integer sum.  (`_partial`: see above.) -/
+theorem sumf_of_int_spellings_partial (c : Ctx) (as : List Arg) (n : Int) (ns : List Int)
+    (hp : as.map (fun a => atoi (a.val c)) = (n :: ns).map some) (hlen : 1 ≤ ns.length)
+    (hb : ∀ m ∈ n :: ns, m.natAbs ≤ 9007199254740992) (hsmall : PartialSumsSmall n ns) :
+    ∃ y : F64, callHelper (Float.floatHelper F64.add) as c = .ok (Float.fmtF y) ∧
+      y.toRat? = some ((ns.foldl (· + ·) n : Int) : Rat) ∧
+      (ns.foldl (· + ·) n ≠ 0 → y = F64.ofInt (ns.foldl (· + ·) n)) := by
+  obtain ⟨xs, hx, hall⟩ := ints_parse_as_floats c as (n :: ns) hp hb
+  cases hall with
+  | cons h1 h2 =>
+    rename_i x xs'
+    exact sumf_exact_small_ints_partial c as x xs' n ns hx (by
+      have := congrArg List.length hx
+      have l2 := congrArg List.length hp
+      simp at this l2; omega) h1 h2 hsmall
+
+/-- An integer spelling is a float spelling: `ParseFloat` accepts whatever `Atoi` accepts and returns the
+    correctly rounded integer (so the integer helpers' inputs are also inputs of the float helpers). -/
+theorem int_spelling_is_float (s : Bytes) (n : Int) (h : atoi s = some n) :
+    Float.parseF s = some (F64.ofRatS (s.head? == some 45) (n : Rat)) ∧
+    (n.natAbs ≤ 9007199254740992 → ∃ y, Float.parseF s = some y ∧ y.toRat? = some (n : Rat)) :=
+  ⟨F64.parseFloat_of_atoi h, fun hs => F64.parseFloat_of_atoi_small h hs⟩
+
+example : atoi (ascii "-9007199254740992") = some (-9007199254740992) ∧ atoi (ascii "+007") = some 7 := by
+  decide +kernel
+
 example : PartialSumsSmall 9007199254740000 [900, 92, -9007199254740992] := by
   unfold PartialSumsSmall PartialSumsSmall PartialSumsSmall PartialSumsSmall; decide
 
